@@ -780,18 +780,30 @@ func nontrivial(sel string, d *Desc, glyphs []int, res *implResult) (bool, []str
 	}
 gposDone:
 	if res.sub.Gsub != nil {
+		lig, single, empty := false, false, false
 		for _, t := range res.sub.Gsub.LookupList {
+			if len(t.Subtables) == 0 {
+				empty = true
+			}
 			for _, st := range t.Subtables {
 				switch st.(type) {
 				case *gtab.Gsub4_1:
-					labels = append(labels, "ligature-kept")
-					interesting = true
+					lig = true
 				case *gtab.Gsub1_2:
-					labels = append(labels, "single-kept")
-					interesting = true
+					single = true
 				}
 			}
 		}
+		if lig {
+			labels = append(labels, "ligature-kept")
+		}
+		if single {
+			labels = append(labels, "single-kept")
+		}
+		if empty {
+			labels = append(labels, "lookup-emptied")
+		}
+		interesting = interesting || lig || single
 	}
 	if o, ok := res.sub.Outlines.(*cff.Outlines); ok && len(o.Private) > 1 {
 		labels = append(labels, "several-FDs")
